@@ -1,0 +1,6 @@
+//go:build verif
+
+package ion
+
+// VerifDecimalNegZero reports the isNegZero flag of a Decimal.
+func VerifDecimalNegZero(d *Decimal) bool { return d.isNegZero }
